@@ -309,13 +309,24 @@ func run[P any](t *testing.T, s Spec[P]) {
 		if err := json.Unmarshal(b, &p); err != nil {
 			t.Fatalf("replay: bad plan %s: %v", env.Replay, err)
 		}
-		_, err = safeExec(s.Exec, p)
-		if err != nil {
-			report(env.Replay, err)
-			t.Fail()
-		} else {
-			fmt.Printf("REPLAY-OK property=%s replay=%s\n", s.ID, env.Replay)
+		// A plan whose failure depends on goroutine scheduling may need several
+		// executions: VERIF_REPLAY_REPEAT=n repeats until the first failure.
+		reps := 1
+		if v, e := strconv.Atoi(os.Getenv("VERIF_REPLAY_REPEAT")); e == nil && v > 1 {
+			reps = v
 		}
+		for i := 0; i < reps; i++ {
+			_, err = safeExec(s.Exec, p)
+			if err != nil {
+				if reps > 1 {
+					fmt.Printf("replay attempt %d of %d failed\n", i+1, reps)
+				}
+				report(env.Replay, err)
+				t.Fail()
+				return
+			}
+		}
+		fmt.Printf("REPLAY-OK property=%s replay=%s\n", s.ID, env.Replay)
 		return
 	}
 
